@@ -250,7 +250,26 @@ func evalMulti(srcs []msrc, mode string, b int) (out outcome, vs []viol) {
 		if pre[i] > 1 || s.closes > 1 {
 			vs = append(vs, viol{T + "source-closed-more-than-once", fmt.Sprintf("source [%d] was closed %d times before and %d times after Close", i, pre[i], s.closes)})
 		}
-		if s.closes == 0 && srcs[i].spec.Style.Term != "body" {
+		if srcs[i].spec.Style.Term == "body" {
+			// Closed once already, by its owner (that is what its error says).
+			// Once it has told the stream so and the stream took that as the end
+			// of the source, a Close by the stream is a second close. (If the
+			// stream instead surfaced the error to its consumer - accepted on
+			// the WriteTo path - the source is held like any failed source and
+			// Close closes it; a Close before the source was ever read to its
+			// end cannot know either.)
+			if s.closes > s.closesTold {
+				out.bodyUntold++
+			}
+			if s.closesTold > 0 && errors.Is(out.err, http.ErrBodyReadAfterClose) {
+				out.bodySurfaced++
+			}
+			if s.closesTold > 0 && !errors.Is(out.err, http.ErrBodyReadAfterClose) {
+				vs = append(vs, viol{T + "already-closed-body-closed-again", fmt.Sprintf("source [%d] had been read and closed by its owner (its Read answers http.ErrBodyReadAfterClose, which the stream took as the end of that source) and the stream then closed it again: %d closes in total, want exactly the owner's 1", i, 1+s.closes)})
+			}
+			continue
+		}
+		if s.closes == 0 {
 			k := T + "Read-source-not-closed-after-Close"
 			if path == "WriteTo" {
 				k = T + "WriteTo-never-closes"
@@ -542,6 +561,13 @@ func multiFamily(m, maxLen int) family {
 				}
 				out, fs := evalMulti(srcs, c.mode, c.b)
 				u.evals++
+				if out.bodyUntold+out.bodySurfaced > 0 {
+					if u.dim == nil {
+						u.dim = map[string]int64{}
+					}
+					u.dim[dimBodyUntold] += int64(out.bodyUntold)
+					u.dim[dimBodySurfaced] += int64(out.bodySurfaced)
+				}
 				if total > 0 {
 					u.nontrivial++
 				}
@@ -608,7 +634,7 @@ func run(r *enumx.Run, replay *enumx.ReplayCase) {
 		"Every case is a distinct index tuple; non-trivial = the sources hand out at least one byte. A mid-stream error after chunk j of a longer source is the same script as the composition of its prefix ending in an error, so it is enumerated once, under the prefix length.")
 	r.Assume("sources follow the io.Reader contract (never n>len(p), sticky terminal condition); writers follow the io.Writer contract (n<len(p) only with a non-nil error)")
 	r.Assume("single goroutine; concurrent use is outside C16; after Stop or Close only the clauses that hold at every moment are judged (no foreign bytes, writer = yielded, nothing written after Stop, close counts), not what a Read on a stopped/closed stream returns")
-	r.Assume("a source ending with http.ErrBodyReadAfterClose is at its end (multireadercloser.go says so for Read) and counts as already closed by its owner")
+	r.Assume("a source ending with http.ErrBodyReadAfterClose is at its end (multireadercloser.go says so for Read) and has been closed once already, by its owner: once it has answered the stream with that error and the stream took it as the end of the source, any Close by the stream is a second close (MultiReaderCloser/already-closed-body-closed-again). Not flagged, but counted in operation_sequence_dimensions: Close on such a source before it was read to its end (the stream cannot know yet) and Close after WriteTo reported the error to its consumer (the accepted WriteTo reading: the source is held like any failed source)")
 
 	// MultiReaderCloser.WriteTo allocates a 32 KiB buffer per call; with the
 	// default pacing the collector would run every ~128 cases and serialise the
@@ -647,7 +673,7 @@ func run(r *enumx.Run, replay *enumx.ReplayCase) {
 		wall[f.name] = time.Since(t0).Seconds()
 	}
 	r.Set("evaluations_per_family", perFam)
-	r.Set("operation_sequence_dimensions", famDims)
+	r.Set("operation_sequence_dimensions", famDims) // also: per family, how often the accepted closes of an owner-closed body occurred
 	r.Set("wall_s_per_family", wall)
 	keys := make([]string, 0, len(byKey))
 	for k := range byKey {
@@ -729,7 +755,7 @@ func doReplay(r *enumx.Run, rc *enumx.ReplayCase) {
 		var x OpsCase
 		must(json.Unmarshal(rc.Case, &x))
 		var tr []string
-		vs = runOpsKeyed(x, &tr)
+		vs = runOpsKeyed(x, &tr, nil)
 		rep := opsReport{x, strings.Join(tr, "; ")}
 		fmt.Printf("replay: %s\n", rep)
 		for _, v := range vs {
